@@ -85,13 +85,17 @@ def check_local(ctx, zone, zid, W, L, cal, tag):
 
     def V(k, what, obs=None, e=None):
         ctx.V(f"C05:{k}", f"{zid} local {L} ({ldt!r}, {cal.id}): {what}", case, obs, e)
+    representable = all(gen.INST_MIN_NS <= h[0] <= gen.INST_MAX_NS for h in exp)
+    near_edge = not (gen.INST_MIN_NS + 2 * DAY < L < gen.INST_MAX_NS - 2 * DAY)
     try:
         m = zone.map_local(ldt)
     except Exception as ex:  # noqa: BLE001
         ctx.exc(ex)
-        in_range = all(gen.INST_MIN_NS <= h[0] <= gen.INST_MAX_NS for h in exp) and gen.INST_MIN_NS + 2 * DAY < L < gen.INST_MAX_NS - 2 * DAY
-        if in_range:
+        if (exp and representable) or not near_edge:       # every matching instant is representable: nothing to refuse
             V(f"map_local-raised:{exc_key(ex)}", f"map_local raised {ex!r}", repr(ex))
+        return
+    if not representable or (near_edge and not exp):
+        ctx.count("note:matching-instant-outside-instant-range")   # the value denotes an instant outside the supported range: nothing further is promised
         return
     if m.count != len(exp):
         V("count", f"map_local count = {m.count}; the interval log gives {len(exp)} instants {[h[0] for h in exp]}", m.count, len(exp)); return
@@ -291,6 +295,15 @@ def run(ctx, shard):
                 if big or rng.random() < 0.25:
                     for dd in (-1, 0, 1):
                         check_start_of_day(ctx, zone, zid, W, (t + wa * NS) // DAY + dd, iso if rng.random() < 0.8 else rng.choice(cals))
+            # the first and the last local day of the supported range (the sentinels for "before/after all time" live next to them)
+            edge_Ls = []
+            if seg[0][0] is None and si == 0:
+                edge_Ls += [gen.INST_MIN_NS + k for k in (0, 1, 12 * 3600 * NS, DAY - 1, DAY, rng.randrange(DAY))]
+            if seg[-1][1] is None:
+                edge_Ls += [gen.INST_MAX_NS - k for k in (0, 1, 12 * 3600 * NS, DAY - 1, DAY, rng.randrange(DAY))]
+            for L in edge_Ls:
+                ctx.key((zid, "edge", L)); ctx.count("range_edge_locals")
+                check_local(ctx, zone, zid, W, L, iso, "full")
             # seeded local values anywhere in the segment
             lo_ns = (seg[0][0] if seg[0][0] is not None else gen.INST_MIN_NS) + 4 * DAY
             hi_ns = (seg[-1][1] if seg[-1][1] is not None else gen.INST_MAX_NS) - 4 * DAY
